@@ -607,7 +607,16 @@ pub fn random_ops(rng: &mut Rng, fe: &str, frames: usize, unit: usize, n: usize,
     }
     // finish by draining to the end so that exactly-once delivery is judged to the end
     let n_all = *rng.pick(&[(unit * 13 + 1) as i64, 4096, total_units / 3 + 1, 64 * unit as i64]);
-    ops.push(json!({"op": "readall", "n": n_all}));
+    // ... with the caller's loop, or with the reader's own read_to_end (after whatever partial reads came before), sometimes
+    // followed by the consuming iterator over what is left (nothing)
+    match (fe != "channel", rng.below(3)) {
+        (true, 0) => ops.push(json!({"op": "readtoend"})),
+        (true, 1) if fe == "sample" => {
+            ops.push(json!({"op": "readtoend"}));
+            ops.push(json!({"op": "iterall"}));
+        }
+        _ => ops.push(json!({"op": "readall", "n": n_all})),
+    }
     // poll again after the end: end-of-stream must be signalled again
     ops.push(json!({"op": "fill"}));
     if fe != "channel" {
